@@ -92,20 +92,35 @@ def build(desc):
 
 
 def candidate_temps(T0: np.ndarray, inst):
+    """[4 outside] + [4 per interval: 1/4, 1/2, 3/4, 1/2+0.4 tol] + [5 per row: T, T+-0.4 tol, T+-3 tol]"""
     step = inst[1]
     c = [T0[0] + step, T0[0] + 2 * step, T0[-1] - step, T0[-1] - 2 * step]
     for a, b in zip(T0[:-1], T0[1:]):
         for f in (0.25, 0.5, 0.75):
             c.append(b + f * (a - b))
+        c.append(b + 0.5 * (a - b) + 0.4 * TOL)       # a request within tolerance of another REQUESTED temperature
     for t in T0:
         c.extend([t, t + 0.4 * TOL, t - 0.4 * TOL, t + 3 * TOL, t - 3 * TOL])
     return [float(x) for x in c]
 
 
 def events(cands, max_len):
-    """All ordered lists (with repetition) of candidate indices of length 1..max_len."""
+    """All ordered lists (with repetition) of candidate indices of length 1..max_len, plus long requests:
+    every ordered triple (with repetition) of the four interior candidates of each interval ("several per interval",
+    duplicates and near-duplicates separated by another temperature of the same interval), and an unsorted request
+    that mixes top, every interval, bottom, duplicates and near-duplicates."""
     for n in range(1, max_len + 1):
         yield from itertools.product(range(len(cands)), repeat=n)
+    if max_len >= 2:
+        n_int = (len(cands) - 4) // 9          # 4 outside + 4 per interval + 5 per row (rows = intervals + 1)
+        for k in range(n_int):
+            four = [4 + 4 * k + j for j in range(4)]
+            for trip in itertools.product(four, repeat=3):
+                if len(set(trip)) >= 2:
+                    yield trip
+        mixed = [0, 2] + [4 + 4 * k + 1 for k in range(n_int)] + [3, 1, 0, 5] + list(range(4 + 4 * n_int, len(cands), 5))
+        yield tuple(mixed)
+        yield tuple(reversed(mixed))
 
 
 # ----- reference model ---------------------------------------------------------
@@ -156,7 +171,7 @@ def check_state(ref: Ref, pt, present_expected, n_before, returned, expected_new
         out.append(("order", {"T": T.tolist()}))
     # all expected rows present and nothing else
     exp_T = sorted(present_expected, reverse=True)
-    if len(exp_T) == len(T) and np.max(np.abs(np.array(exp_T) - T)) > 1e-9:
+    if len(exp_T) == len(T) and np.max(np.abs(np.array(exp_T) - T)) > TOL:   # which of two requests within tolerance is kept is not specified
         out.append(("row_temperatures", {"T": T.tolist(), "expected": exp_T}))
     # curves unchanged as functions of T: new rows on the original curve, original breakpoints still there
     for c in ref.interp_cols:
@@ -268,8 +283,8 @@ def explore(tier, inst, shard, nshards):
                     res.outcomes.add(jhash([round(float(x), 6) for x in new_pt.data[:, ref.idx["T"]]]))
                     if len(res.samples) < 2:
                         res.samples.append({"table": desc, "history": [[cands[i] for i in e] for e in h2], "rows_after": len(new_pt)})
-                    if not problems and level + 1 < depth:
-                        nxt.append((h2, new_pt, present2))
+                    if not problems and level + 1 < depth and (tier == "thorough" or len(ev) <= len_by_depth[level]):
+                        nxt.append((h2, new_pt, present2))      # quick: states reached by a long request are checked but not expanded
             frontier = nxt
     return res
 
@@ -304,7 +319,7 @@ SUBCHECKS = {
              "outcomes = distinct temperature columns reached",
         explore=explore,
         replay=replay,
-        bound=lambda tier: "depth 2 calls, request lists of length <=2 then <=1" if tier == "quick"
-        else "depth 3 calls, request lists of length <=2, <=2, <=1",
+        bound=lambda tier: "depth 2 calls, request lists of length <=2 then <=1, plus at every level all ordered triples of each interval's 4 interior candidates and two mixed long requests (not expanded further)" if tier == "quick"
+        else "depth 3 calls, request lists of length <=2, <=2, <=1, plus the long requests at every level (expanded)",
     )
 }
